@@ -367,10 +367,78 @@ pub enum Case12 {
     Hide(HideCase),
     /// the foreign peer hides, real must reveal to the original
     ForeignHide(HideCase),
+    /// several of the above one after the other on one thread, with secrets
+    /// that are related to each other (equal, prefix, extension, one bit):
+    /// "depends on nothing but its inputs" against a call history
+    History(Vec<Case12>),
+}
+
+/// Secrets related to one base secret the way a cache keyed too coarsely
+/// would confuse them.
+pub fn related_secrets(rng: &mut Rng, n: usize) -> Vec<Vec<u8>> {
+    let base_len = match rng.below(4) {
+        0 => *rng.pick(&[1usize, 2, 15, 16, 17, 32]),
+        1 => *rng.pick(&[55usize, 56, 63, 64, 65, 72]),
+        2 => *rng.pick(&[100usize, 119, 120, 128, 129, 200, 240, 256]),
+        _ => rng.urange(1, 300),
+    };
+    let base = rng.bytes(base_len);
+    let mut out = Vec::new();
+    for _ in 0..n {
+        let mut s = base.clone();
+        match rng.below(8) {
+            0 | 1 => {}
+            2 => {
+                let k = rng.urange(1, 3.min(s.len()));
+                s.truncate(s.len() - k);
+            }
+            3 => {
+                let k = rng.urange(1, 17);
+                s.extend_from_slice(&rng.bytes(k));
+            }
+            4 => {
+                let i = s.len() - 1;
+                s[i] ^= 1 << rng.below(8);
+            }
+            5 => {
+                let i = rng.usize_below(s.len());
+                s[i] ^= 1 << rng.below(8);
+            }
+            6 => {
+                // same length, same ends, different middle
+                if s.len() > 2 {
+                    let i = rng.urange(1, s.len() - 2);
+                    s[i] = s[i].wrapping_add(1);
+                }
+            }
+            _ => {
+                // a trailing newline or NUL, as a key read from a file has
+                s.push(*rng.pick(&[b'\n', 0u8]));
+            }
+        }
+        out.push(s);
+    }
+    out
 }
 
 fn exec_c12(case: &Case12, obs: &mut Obs) -> Result<(), Failure> {
     match case {
+        Case12::History(steps) => {
+            obs.count("probe:hide-history");
+            for (i, st) in steps.iter().enumerate() {
+                if matches!(st, Case12::History(_)) {
+                    continue;
+                }
+                if let Err(mut f) = exec_c12(st, obs) {
+                    if steps.len() > 1 {
+                        f.class = format!("history:{}", f.class.split(':').next().unwrap_or(""));
+                        f.detail = format!("call #{i} of a {}-call history on one thread: {}", steps.len(), f.detail);
+                    }
+                    return Err(f);
+                }
+            }
+            Ok(())
+        }
         Case12::Hide(c) => {
             obs.steps += 1;
             let h = match real_hide(c) {
@@ -611,12 +679,55 @@ impl Scenario for C12 {
             }
             ctx.check::<C12>(&case);
         }
+        // a call history over related secrets
+        let n = wl.urange(2, 4);
+        let secrets = related_secrets(&mut wl, n);
+        let mut sw2 = sw.clone();
+        if wl.chance(2, 3) {
+            sw2.size = SizeRegime::Typical;
+        }
+        let mut steps = Vec::new();
+        for s in secrets {
+            let attr = *wl.pick(&ALL_ATTRS);
+            let mut hc = gen_hide_case(&mut wl, &sw2, attr, &mut sm);
+            hc.secret = s;
+            if blocks_of(&hc) < 2 && wl.chance(3, 4) {
+                let room = 1008usize.saturating_sub(2 + spec_payload(&hc.avp).len());
+                let ll = wl.urange(16, 48).min(room);
+                hc.lp = wl.bytes(ll);
+            }
+            steps.push(if wl.chance(2, 3) { Case12::Hide(hc) } else { Case12::ForeignHide(hc) });
+        }
+        let case = Case12::History(steps);
+        ctx.obs.distinct(fnv1a(&serde_json::to_vec(&case).unwrap()));
+        ctx.check::<C12>(&case);
     }
     fn execute(case: &Case12, obs: &mut Obs) -> Result<(), Failure> {
         exec_c12(case, obs)
     }
     fn shrink(case: &Case12) -> Vec<Case12> {
         match case {
+            Case12::History(steps) => {
+                let mut out = Vec::new();
+                if steps.len() == 1 {
+                    out.push(steps[0].clone());
+                }
+                for i in 0..steps.len() {
+                    let mut v = steps.clone();
+                    v.remove(i);
+                    if !v.is_empty() {
+                        out.push(Case12::History(v));
+                    }
+                }
+                for i in 0..steps.len() {
+                    for alt in Self::shrink(&steps[i]).into_iter().take(12) {
+                        let mut v = steps.clone();
+                        v[i] = alt;
+                        out.push(Case12::History(v));
+                    }
+                }
+                out
+            }
             Case12::Hide(c) => shrink_hide(c).into_iter().map(Case12::Hide).collect(),
             Case12::ForeignHide(c) => shrink_hide(c).into_iter().map(Case12::ForeignHide).collect(),
         }
